@@ -15,7 +15,8 @@ with `type Error = ..`), `type` aliases, tuples, `Option` fields and their metho
 panicking macros, and a demand-driven order of translation across lib.rs and noise.rs.  Nothing in here recognises a function by
 its name or a line by its text; the file-specific knowledge is in these tables:
   TARGETS       the functions wanted (everything they call is translated too, callees first, and marked `@[simp]`: a proof
-                about a wanted function sees through a helper that was extracted from it);
+                about a wanted function sees through a helper that was extracted from it -- except a hand-written method of a
+                std trait whose derived form has a built-in meaning, BUILTIN_TRAIT_METHODS: `Clone::clone`);
   ORION         Lean meaning of the orion functions lib.rs calls (by full path, after resolving the `use` aliases);
   STD_FNS       `std::cmp::max`;  CRATE_EXTERN  crate functions that stay external (`secure_random`);
   IDENTITY_FNS, STRUCT_LEAN, ENUM_LEAN, ENUM_LEAN_VARIANT   hand-written counterparts (RsIO.lean, Noise.lean).
@@ -39,6 +40,12 @@ Meaning of the constructs (combinators: lean/KestrelModel/RsPrelude.lean, RsIO.l
   for x in v { .. }         -> Rs.Step.andThen (Rs.forInStep v (fun x state => ..) state) (fun state => rest)
   match x { E::A => {..}, .. } (statement) -> `match x with | E.A => .. | ..` in the continuation form of `if`
   assert!, debug_assert!, assert_eq!, unimplemented!  -> dropped (Rust panics; every site is listed in the generated header)
+  match o / (a, b) / e { pats => .. }  -> `match o with` / `match a, b with`: patterns `_`, a name, `None`, `Some(p)`, `Ok(p)`,
+                               `Err(p)`, `(p, q)`, an enum variant; as a value (arms without statements) and as a statement
+  let x = match r { Ok(v) => v, Err(_) => return Err(E) };  -> `match r with | .error _ => return | .ok v =>` + the rest (as `?`)
+  a.checked_sub(b)          -> Rs.checkedSub a b (usize / u64);  o.ok_or(e), o.ok_or_else(|| e) -> Rs.okOrElse o e
+  Zeroizing::new(f(x)?), &f(x)?   -> the `?` is taken at the statement (the wrapper is the identity)
+  const A: T = <expr over other consts>  -> the consts it mentions are emitted first
 """
 import sys, os, hashlib
 
@@ -455,6 +462,35 @@ class NParser(S.SParser):
             path.append(self.ident().text)
         return path
 
+    def parse_pat(self, line):
+        """a `match` pattern: `_`, a path (enum variant), a lower-case name (binding), `None`, `Some(p)`, `(p, q, ..)`, `&p`"""
+        tok = self.peek()
+        if self.at('_'):
+            self.next(); return Node('pat', tok.line, k='wild')
+        if self.at('&'):
+            self.next(); self.accept('mut'); return self.parse_pat(line)
+        if self.at('('):
+            self.next(); elems = []
+            while not self.accept(')'):
+                elems.append(self.parse_pat(line))
+                if not self.at(')'): self.expect(',')
+            if len(elems) == 1: return elems[0]
+            return Node('pat', tok.line, k='tuple', elems=elems)
+        if tok.kind != 'id' or tok.text in ('ref', 'mut', 'box'):
+            raise Unsupported('`match` pattern other than a path, a name, `_`, `None`, `Some(..)`, `Ok(..)`, `Err(..)` or a tuple of these', line)
+        p = [self.ident().text]
+        while self.accept('::'): p.append(self.ident().text)
+        if self.at('('):
+            if p not in (['Some'], ['Ok'], ['Err']):
+                raise Unsupported('`match` pattern other than a path, a name, `_`, `None`, `Some(..)`, `Ok(..)`, `Err(..)` or a tuple of these', line)
+            self.next(); inner = self.parse_pat(line); self.expect(')')
+            return Node('pat', tok.line, k=p[0].lower(), inner=inner)
+        if self.at('{') or self.at('..') or self.at('..='):
+            raise Unsupported('`match` pattern other than a path, a name, `_`, `None`, `Some(..)`, `Ok(..)`, `Err(..)` or a tuple of these', line)
+        if p == ['None']: return Node('pat', tok.line, k='none')
+        if len(p) == 1 and (p[0][:1].islower() or p[0][:1] == '_'): return Node('pat', tok.line, k='bind', name=p[0])
+        return Node('pat', tok.line, k='path', path=p)
+
     def parse_primary(self):
         tok = self.peek()
         if tok.kind == 'id' and tok.text == 'match':
@@ -465,24 +501,27 @@ class NParser(S.SParser):
             self.expect('{')
             arms = []
             while not self.accept('}'):
-                if self.at('_'):
-                    self.next(); pat = None
-                else:
-                    p = [self.ident().text]
-                    while self.accept('::'): p.append(self.ident().text)
-                    if self.at('(') or self.at('{') or self.at('|') or self.at('if'):
-                        raise Unsupported('`match` pattern other than a path or `_`', tok.line)
-                    pat = p
+                pat = self.parse_pat(tok.line)
+                if self.at('|') or self.at('if') or self.at('@'):
+                    raise Unsupported('`match` arm with `|`, a guard or `@`', tok.line)
                 self.expect('=>')
                 if self.at('{'):
                     blk = self.parse_block()
                     body = blk.tail if (not blk.stmts and blk.tail is not None) else blk
+                elif self.at('return'):
+                    rl = self.next().line
+                    saved, self.no_struct = self.no_struct, 0
+                    body = Node('return', rl, e=None if (self.at(',') or self.at('}')) else self.parse_expr())
+                    self.no_struct = saved
                 else:
                     saved, self.no_struct = self.no_struct, 0
                     body = self.parse_expr()
                     self.no_struct = saved
                 arms.append((pat, body))
                 if not self.at('}'): self.accept(',')
+            if all(p.k in ('wild', 'path') for p, _ in arms):
+                # the form rs2lean_stream.py uses: `None` = `_`, a list = the path of an enum variant
+                arms = [(None if p.k == 'wild' else p.path, b) for p, b in arms]
             return Node('match', tok.line, scrut=scrut, arms=arms)
         if tok.kind == 'p' and tok.text in ('|', '||'):
             self.next()
@@ -851,6 +890,7 @@ class NFn(S.SFn):
                 tv = self.unify(self.expr(x, tv)[1], tv, e.line, 'array element')
             texts = [self.expr(x, tv)[0] for x in e.elems]
             return ('[' + ', '.join(texts) + ']', ('list', tv, 'own'), True)
+        if k == 'match' and any(isinstance(p, Node) for p, _ in e.arms): return self.match_pat_expr(e, want)
         if k == 'if' and e.cond.kind != 'letsome' and e.els is not None and \
                 any(b.stmts for b in (e.then, e.els)):
             c = self.expr(e.cond)
@@ -860,6 +900,98 @@ class NFn(S.SFn):
             ty = self.unify(a[1], b[1], e.line, 'branches of `if`')
             return (f'if {c[0]} then {a[0]} else {b[0]}', ty, False)
         return super().expr(e, want)
+
+    # ---- `match` on an `Option`, a tuple of values, an enum, with patterns `_`, name, `None`, `Some(p)`, `(p, q)`, `E::V`
+    def match_heads(self, e):
+        sc = e.scrut
+        while sc.kind == 'paren': sc = sc.e
+        elems = sc.elems if sc.kind == 'tuple' else [sc]
+        for x in elems:
+            if S.contains(x, ('try', 'assign', 'loop')) or self.effectful(x): self.bad('`match` on an expression with effects', e.line)
+        return [self.expr(x) for x in elems]
+
+    def pat_text(self, p, ty, line, top=True):
+        """Lean pattern for the Rust pattern `p` against a value of type `ty`; declares the names it binds in the current scope"""
+        ty = resolve(ty)
+        if p.k == 'wild': return '_'
+        if p.k == 'bind':
+            self.declare(p.name, ty, False, 'local', line)
+            return lname(p.name)
+        if p.k in ('none', 'some'):
+            if not (isinstance(ty, tuple) and ty[0] == 'option'): self.bad(f'`Option` pattern against a value of type {self.show(ty)}', line)
+            if p.k == 'none': return 'none'
+            inner = self.pat_text(p.inner, ty[1], line, False)
+            return f'some {inner}' if top else f'(some {inner})'
+        if p.k in ('ok', 'err'):
+            if not (isinstance(ty, tuple) and ty[0] == 'result'): self.bad(f'`Result` pattern against a value of type {self.show(ty)}', line)
+            self.lt(ty)
+            inner = self.pat_text(p.inner, ty[1] if p.k == 'ok' else ty[2], line, False)
+            text = f'.ok {inner}' if p.k == 'ok' else f'.error {inner}'
+            return text if top else f'({text})'
+        if p.k == 'path':
+            pv = self.path_expr(Node('path', line, path=p.path))
+            if resolve(pv[1]) != ty: self.bad('`match` pattern of another type', line)
+            return pv[0]
+        if p.k == 'tuple':
+            if not (isinstance(ty, tuple) and ty[0] == 'tuple' and len(ty[1]) == len(p.elems)):
+                self.bad(f'tuple pattern against a value of type {self.show(ty)}', line)
+            return '(' + ', '.join(self.pat_text(q, t, line, True) for q, t in zip(p.elems, ty[1])) + ')'
+        self.bad('`match` pattern', line)
+
+    def arm_pats(self, p, heads, line):
+        if not isinstance(p, Node): p = Node('pat', line, k='wild') if p is None else Node('pat', line, k='path', path=p)
+        if len(heads) == 1: return self.pat_text(p, heads[0][1], line)
+        if p.k == 'wild': return ', '.join('_' for _ in heads)
+        if p.k == 'tuple' and len(p.elems) == len(heads):
+            return ', '.join(self.pat_text(q, h[1], line) for q, h in zip(p.elems, heads))
+        self.bad('`match` on a tuple with a pattern that is neither a tuple nor `_`', line)
+
+    def match_pat_expr(self, e, want):
+        heads = self.match_heads(e)
+        ty = None
+        for final in (False, True):
+            texts = []
+            for p, body in e.arms:
+                if body.kind == 'block' or S.contains(body, S.EXIT_KINDS): self.bad('`match` expression whose arm has statements', e.line)
+                self.scopes.append({})
+                pt = self.arm_pats(p, heads, e.line)
+                r = self.expr(body, want if ty is None else ty)
+                self.scopes.pop()
+                ty = r[1] if ty is None else self.unify(ty, r[1], e.line, '`match` arms')
+                texts.append(f'| {pt} => {r[0]}')
+        return (f'(match {", ".join(h[0] for h in heads)} with ' + ' '.join(texts) + ')', ty, True)
+
+    def diverges(self, body):
+        """the `return` statement an arm consists of, if it does"""
+        if body.kind == 'return': return body
+        if body.kind == 'block' and len(body.stmts) == 1 and body.tail is None and body.stmts[0].kind == 'return': return body.stmts[0]
+        return None
+
+    def match_let(self, e, want):
+        """`let x = match r { Ok(v) => v, Err(_) => return Err(E) };` -- the arms that return first, the arm with a value last: the
+        rest of the block continues under it (the form `?` has)"""
+        heads = self.match_heads(e)
+        value = [(p, b) for p, b in e.arms if self.diverges(b) is None]
+        if len(value) != 1: self.bad('`match` with `return` arms: exactly one arm must have a value', e.line)
+        vp, vb = value[0]
+        if vb.kind == 'block' or S.contains(vb, S.EXIT_KINDS): self.bad('`match` with `return` arms: the arm with a value has statements', e.line)
+        kinds = [p.k if isinstance(p, Node) else 'path' for p, _ in e.arms]
+        distinct = len(heads) == 1 and all(k in ('ok', 'err', 'some', 'none') for k in kinds) and len(set(kinds)) == len(kinds)
+        if not (e.arms[-1][1] is vb or distinct):
+            self.bad('`match` with `return` arms: the arm with a value must be the last one (or all arms distinct constructors)', e.line)
+        ctx = self.ctxs[-1]
+        self.emit(f'match {", ".join(h[0] for h in heads)} with')
+        for p, b in e.arms:
+            if b is vb: continue
+            r = self.diverges(b)
+            self.scopes.append({})
+            pt = self.arm_pats(p, heads, e.line)
+            self.emit(f'| {pt} => {ctx.ret_packed(self, self.pack(self.ret_value(r.e, r.line)))}')
+            self.scopes.pop()
+        for n in pat_names(vp):
+            if self.lookup_opt(n) is not None: self.bad(f'`match` with `return` arms: the pattern binds `{n}`, which shadows a variable', e.line)
+        self.emit(f'| {self.arm_pats(vp, heads, e.line)} =>')
+        return self.expr(vb, want)
 
     def block_expr(self, blk, want):
         """a block of effect-free `let`s ending in an expression, as a Lean term"""
@@ -1023,6 +1155,20 @@ class NFn(S.SFn):
             if name in self.LIST_IDENTITY: return (recv[0], ('list', rt[1], 'own') if name in ('to_vec', 'clone') else rt, recv[2])
         if name == 'to_le_bytes' and not e.args and rt == 'u64':
             return (f'natLE 8 {self.paren(recv)}', BYTES, False)
+        if name == 'checked_sub' and len(e.args) == 1 and rt in ('usize', 'u64'):
+            a = self.expr(e.args[0], rt); self.unify(a[1], rt, e.line, 'argument of `.checked_sub`'); a = self.expr(e.args[0], rt)
+            return (f'Rs.checkedSub {self.paren(recv)} {self.paren(a)}', ('option', rt), False)
+        if name in ('ok_or', 'ok_or_else') and len(e.args) == 1 and isinstance(rt, tuple) and rt[0] == 'option':
+            arg = e.args[0]
+            if name == 'ok_or_else':
+                if arg.kind != 'closure' or arg.params: self.bad('`.ok_or_else` whose argument is not a closure without parameters', e.line)
+                arg = arg.body
+            if S.contains(arg, ('try', 'assign', 'loop')) or self.effectful(arg): self.bad(f'`.{name}` whose argument has effects', e.line)
+            w = resolve(want) if want is not None else resolve(self.ret_ty)
+            hint = w[2] if isinstance(w, tuple) and w[0] == 'result' else None
+            err = self.expr(arg, hint)
+            self.lt(err[1])
+            return (f'Rs.okOrElse {self.paren(recv)} {self.paren(err)}', ('result', rt[1], err[1]), False)
         if name in MUTATORS: self.bad(f'`.{name}` used as an expression', e.line)
         return super().mcall_expr(e, want)
 
@@ -1080,7 +1226,13 @@ class NFn(S.SFn):
 
     # ---- effects at the root of a `let` initialiser, an expression statement, `return`
     def spine(self, e, want=None):
-        while e.kind == 'paren': e = e.e
+        while e.kind == 'paren' or (e.kind == 'ref' and (S.contains(e.e, ('try',)) or self.effectful(e.e))): e = e.e
+        if e.kind == 'call' and e.f.kind == 'path' and len(e.args) == 1 and \
+                self.crate.expand(self.mod, self.local_uses, e.f.path) in IDENTITY_FNS and \
+                (S.contains(e.args[0], ('try',)) or self.effectful(e.args[0])):
+            return self.spine(e.args[0], want)                     # `Zeroizing::new(f(x)?)`
+        if e.kind == 'match' and any(isinstance(p, Node) for p, _ in e.arms) and any(self.diverges(b) is not None for _, b in e.arms):
+            return self.match_let(e, want)
         if e.kind == 'try':
             inner = self.spine(e.e)
             ty = resolve(inner[1])
@@ -1176,9 +1328,10 @@ class NFn(S.SFn):
 
     def effectful(self, e):
         """does evaluating `e` at the root need statements (a buffer-filling orion call, pop_front, a `&mut self` method)?"""
-        while e.kind == 'paren': e = e.e
+        while e.kind in ('paren', 'ref'): e = e.e
         if e.kind == 'call' and e.f.kind == 'path':
             ex = self.crate.expand(self.mod, self.local_uses, e.f.path)
+            if ex in IDENTITY_FNS and len(e.args) == 1: return self.effectful(e.args[0])
             return ex in ORION and ORION[ex][0] == 'out'
         if e.kind == 'mcall':
             if e.name == 'pop_front': return True
@@ -1227,6 +1380,10 @@ class NFn(S.SFn):
                 return
             if k == 'closure':
                 walk(x.body, set(local) | set(x.params)); return
+            if k == 'match' and any(isinstance(p, Node) for p, _ in x.arms):
+                walk(x.scrut, local)
+                for p, body in x.arms: walk(body, set(local) | set(pat_names(p)))
+                return
             if k == 'panic': return
             if k == 'assign':
                 n = tr.root_name(x.place)
@@ -1340,6 +1497,7 @@ class NFn(S.SFn):
     # ---- branching statements: `if`, `if let Some(x) = ..`, `match`
     def arm_block(self, body):
         if body.kind == 'block': return body
+        if body.kind == 'return': return Node('block', body.line, stmts=[body], tail=None)
         return Node('block', body.line, stmts=[Node('expr', body.line, e=body)], tail=None)
 
     def branches(self, e):
@@ -1347,6 +1505,20 @@ class NFn(S.SFn):
         return super().branches(e)
 
     def if_chain(self, e, ctx):
+        if e.kind == 'match' and any(isinstance(p, Node) for p, _ in e.arms):
+            heads = self.match_heads(e)
+            self.emit(f'match {", ".join(h[0] for h in heads)} with')
+            for p, body in e.arms:
+                blk = self.arm_block(body)
+                self.comment(blk.line)
+                self.scopes.append({})
+                self.emit(f'| {self.arm_pats(p, heads, e.line)} => (')
+                self.depth += 1
+                self.block(blk, ctx)
+                self.depth -= 1
+                self.emit(')')
+                self.scopes.pop()
+            return
         if e.kind == 'match':
             s = self.expr(e.scrut)
             st = resolve(s[1])
@@ -1393,8 +1565,15 @@ class NFn(S.SFn):
             return
         return super().if_chain(e, ctx)
 
+    ITER_IDENTITY = {'iter', 'into_iter', 'copied', 'cloned', 'iter_mut'}
+
     def for_step(self, s, ctx):
-        it = self.expr(s.iter)
+        src = s.iter
+        while True:                                               # `for x in v.iter()`, `&v`, `v.iter().copied()`: the elements of v
+            if src.kind in ('paren', 'ref'): src = src.e
+            elif src.kind == 'mcall' and src.name in self.ITER_IDENTITY and not src.args: src = src.recv
+            else: break
+        it = self.expr(src)
         if not is_list(it[1]): self.bad('`for` over something that is not a slice / Vec', s.line)
         if len(s.pat) != 1: self.bad('tuple pattern in `for`', s.line)
         self.scopes.append({})
@@ -1509,10 +1688,31 @@ class NFn(S.SFn):
             owner = f'impl {fn.impl_type}' if fn.impl_trait is None else f'impl {type_text(fn.impl_trait)} for {fn.impl_type}'
             owner = f', in `{owner}`'
         doc = f'/-- `{sig_src}` ({fname} line {fn.line}{owner}) -/'
-        attr = '' if self.tr.is_target(self.mod, fn) else '@[simp] '
+        attr = '' if self.tr.is_target(self.mod, fn) or overrides_builtin(fn) else '@[simp] '
         head = f'{attr}def {self.lean_name} {" ".join(ptexts)} : {self.block_ty()} :=' if ptexts else f'{attr}def {self.lean_name} : {self.block_ty()} :='
         self.result_info = dict(lean=self.lean_name, implicit=imp, params=sem_params, ret=self.ret_ty, self_kind=fn.self_kind)
         return [doc + '\n' + head + '\n' + '\n'.join(self.lines)]
+
+
+# methods of std traits the translator has a built-in meaning for when the trait is derived (`x.clone()` = `x`)
+BUILTIN_TRAIT_METHODS = {('Clone', 'clone')}
+
+
+def overrides_builtin(fn):
+    """a hand-written `impl Clone for T { fn clone }` replaces the built-in meaning of `.clone()` (the identity): it is translated
+    like any function but NOT marked `@[simp]` -- a proof about a caller does not see through it unasked"""
+    t = getattr(fn, 'impl_trait', None)
+    if not isinstance(t, tuple): return False
+    name = t[1][-1] if t[0] in ('named', 'generic') else None
+    return (name, fn.name) in BUILTIN_TRAIT_METHODS
+
+
+def pat_names(p):
+    if not isinstance(p, Node): return []
+    if p.k == 'bind': return [p.name]
+    if p.k in ('some', 'ok', 'err'): return pat_names(p.inner)
+    if p.k == 'tuple': return [n for q in p.elems for n in pat_names(q)]
+    return []
 
 
 def type_text(t):
@@ -1579,6 +1779,7 @@ class Translator:
             r = h.expr(node.e, ty); h.unify(r[1], ty, node.line, f'const {name}'); r = h.expr(node.e, ty)
         except Unsupported as u:
             u.fn = f'const {qual(mod, name)}'; raise
+        for d in sorted(x for x in h.deps if x[0] == 'const'): self.need_const(d[1], d[2])
         label = self.crate.mods[mod].label.rsplit('/', 1)[1]
         self.chunks.append(f'/-- `const {name}` ({label} line {node.line}) -/\n@[simp] def {lname(name)} : {h.lt(ty)} := {r[0]}')
 
@@ -1652,6 +1853,10 @@ HEADER = '''/-
   * `e?` is `match e with | .error x => return Err(From::from(x)) | .ok v => …` (`From::from` = identity or the `impl From` of
     errors.rs); `.map_err(|x| e)` is `Except.mapError (fun x => e)`.  An `if` / `match` / `for` that can leave its block and is
     not last in it is `Rs.Step.andThen (..) (fun assigned-variables => rest)`; `for x in v` is `Rs.forInStep v (fun x state => ..)`.
+  * `match` on an `Option`, a `Result`, a tuple of values or an enum is a Lean `match` (patterns `_`, a name, `None`, `Some(p)`,
+    `Ok(p)`, `Err(p)`, `(p, q)`, a variant); `let x = match r {{ Ok(v) => v, Err(_) => return e }};` has the form of `?`.
+    `a.checked_sub(b)` is `Rs.checkedSub a b`; `o.ok_or(e)` / `o.ok_or_else(|| e)` is `Rs.okOrElse o e`; `for x in v.iter()` is
+    `for x in v`.  A hand-written `Clone::clone` is translated like any function but is NOT `@[simp]` (derived: the identity).
   * Panics are totalised: `Option::unwrap/expect` = `Rs.unwrap`, `Result::unwrap/expect` = `Rs.unwrapRes` (`default` in the
     panicking case), `.try_into().unwrap()` from a slice to an array and orion's `from_slice(..).unwrap()` are the identity
     (they panic on a wrong length), slices out of range as in RsPrelude.lean, and these statements are dropped:
